@@ -23,6 +23,7 @@ class Ctx:
     replay = False      # concrete mode
     raw = False         # builders return bare trees
     envelope_layout = None   # header layout of the next envelopes ('short' / 'long' / None)
+    ncs_id = None            # ncsID of the next envelopes
     docs = []           # XML texts rendered in replay mode, in order of construction
     nontrivial = 0      # side channel: paths on which the interesting event happened
     info = {}           # details filled by harnesses (observed / expected / fingerprint)
@@ -32,6 +33,7 @@ class Ctx:
         cls.replay = replay
         cls.raw = False
         cls.envelope_layout = None
+        cls.ncs_id = None
         cls.docs = []
         cls.nontrivial = 0
         cls.info = {}
@@ -89,6 +91,8 @@ def wrap(root, cls=None):
 
 def envelope(base, msg_id='2', mos_id='m.mos', ncs_id='ncs'):
     lay = Ctx.envelope_layout
+    if Ctx.ncs_id is not None:
+        ncs_id = Ctx.ncs_id
     if lay == 'short':        # fewer header children than a roCreate built with the default layout
         return E('mos', T('messageID', msg_id), base)
     if lay == 'long':
